@@ -36,19 +36,19 @@ def AssertClass (w : String) : Prop :=
 
 /-- building the `ST::string` of a wide-text argument (units in the range of their type, below the
     documented size limit) yields its bytes or `unicode_error` — never `oob`, `ub`, an assertion -/
-theorem wide_stringFrom_cases (src : Utf.Enc) (us : List Nat) (hw : (Arg.wide src us).WideOk) :
-    (∃ bs, Utf.stringFrom src .checkValidity (some us) = .ok bs) ∨
-      Utf.stringFrom src .checkValidity (some us) = .throw .unicodeError := by
+theorem wide_stringFrom_cases (src : Utf.Enc) (m : Mode) (us : List Nat) (hw : (Arg.wide src m us).WideOk) :
+    (∃ bs, Utf.stringFrom src m (some us) = .ok bs) ∨
+      Utf.stringFrom src m (some us) = .throw .unicodeError := by
   obtain ⟨hsrc, hlen⟩ := hw
   rcases hsrc with ⟨rfl, hu⟩ | ⟨rfl, hu⟩
-  · have := StVerif.Lemmas.Utf.convert_eq_reference .utf16 .utf8 (by decide) .checkValidity true us hu hlen
+  · have := StVerif.Lemmas.Utf.convert_eq_reference .utf16 .utf8 (by decide) m true us hu hlen
     simp only [Utf.stringFrom, this, Spec.Unicode.reference]
-    cases Spec.Unicode.refSteps .utf16 .utf8 .checkValidity true (Spec.Unicode.seg .utf16 us) with
+    cases Spec.Unicode.refSteps .utf16 .utf8 m true (Spec.Unicode.seg .utf16 us) with
     | some out => exact Or.inl ⟨out, rfl⟩
     | none => exact Or.inr rfl
-  · have := StVerif.Lemmas.Utf.convert_eq_reference .utf32 .utf8 (by decide) .checkValidity true us hu hlen
+  · have := StVerif.Lemmas.Utf.convert_eq_reference .utf32 .utf8 (by decide) m true us hu hlen
     simp only [Utf.stringFrom, this, Spec.Unicode.reference]
-    cases Spec.Unicode.refSteps .utf32 .utf8 .checkValidity true (Spec.Unicode.seg .utf32 us) with
+    cases Spec.Unicode.refSteps .utf32 .utf8 m true (Spec.Unicode.seg .utf32 us) with
     | some out => exact Or.inl ⟨out, rfl⟩
     | none => exact Or.inr rfl
 
@@ -81,9 +81,9 @@ theorem formatType_sat_core (a : Arg) (f : FormatSpec) (E : Exc → Prop) (A : S
   | bool b => simp [formatType, Sat]
   | str bs => simp [formatType, Sat]
   | nullStr => simp [formatType, Sat]
-  | wide src us =>
+  | wide src m us =>
     simp only [formatType]
-    rcases wide_stringFrom_cases src us hw with ⟨bs, h⟩ | h <;> rw [h] <;> simp [Outcome.bind, Sat, hE]
+    rcases wide_stringFrom_cases src m us hw with ⟨bs, h⟩ | h <;> rw [h] <;> simp [Outcome.bind, Sat, hE]
   | float r => simp only [formatType]; exact hfloat r rfl
 
 /-- every formatter returns output, `unicode_error` (wide text only) or one of two assertion
@@ -136,9 +136,9 @@ theorem formatType_assert_iff (a : Arg) (f : FormatSpec) (hfl : a.LibcRenders) (
   | bool b => simp [formatType, Arg.IsIntegral]
   | str bs => simp [formatType, Arg.IsIntegral]
   | nullStr => simp [formatType, Arg.IsIntegral]
-  | wide src us =>
+  | wide src m us =>
     simp only [formatType, Arg.IsIntegral]
-    rcases wide_stringFrom_cases src us hw with ⟨bs, h⟩ | h <;> rw [h] <;> simp [Outcome.bind]
+    rcases wide_stringFrom_cases src m us hw with ⟨bs, h⟩ | h <;> rw [h] <;> simp [Outcome.bind]
   | float r =>
     have h := hfl f.alwaysSigned (if f.precision ≥ 0 then some f.precision.toNat else none) f.floatClass
     simp only [formatType, formatFloat, Arg.IsIntegral]
